@@ -29,6 +29,7 @@ func init() {
 			{ID: "C10-R9", Doc: "a merge cursor moves only past a row that was taken (shared)", Run: c10r9},
 			{ID: "C10-R11", Doc: "frames on which a reader compares or hashes keys take their key prefix from the reader's own type, never from the caller's destination frame (shared)", Run: c10r11},
 			{ID: "C10-R12", Doc: "a loop over the input readers visits every reader (shared)", Run: c10r12},
+			{ID: "C17-R10", Doc: "a reader with a row budget (Head) cuts the destination to the budget before it reads: it writes only the rows it returns", Run: c17r10},
 			{ID: "C17-R9", Doc: "a pump loop ends exactly at end-of-stream", Run: c17r9},
 			{ID: "C01-R3", Doc: "operator row loops visit every row read exactly once, at its own index, and write it at the next free output row (shared)", Run: c01r3},
 			{ID: "C10-R6", Doc: "reduce reader: combined value stored before refill (shared)", Run: c10r6},
